@@ -9,10 +9,10 @@ CHECKS = {
    text="Every generated string is offered to the four real parsers and to an independent naive recogniser; any accept/reject disagreement, contract breach ((nil,nil)/(obj,err)) or panic is a violation. Exploration of an infinite language: complete edit-distance-1 neighbourhoods of anchor vectors, pairwise covering sets, 28 hostile mutation operators (incl. length wraps at 256/65536), rune twins, decorated anchors, relabelled element blocks, all 65,536 header digit pairs, explicit-copy representations, packed-code corners, literal-guided objects and string-literal-guided inputs, soup and random bytes.",
    note="trusts the transcription of the grammar in harness/spec/grammar.go; strings far from any valid vector are only sampled", ref="3 C01"),
  "C06": dict(tech=ORACLE + " (metric map read by the recogniser) on every Get after every accepted parse",
-   text="For every accepted string of the stream, Get of every metric is compared with what the string says (explicit value or not-defined default); floor: every (metric,value) explicit and every optional metric omitted at least once.",
+   text="For every accepted string of the stream, Get of every metric is compared with what the string says (explicit value or not-defined default); floor: every (metric,value) explicit and every optional metric omitted at least once, and at least 40 constructed hash-collision pairs of equal-length vectors per version parsed back to back (nine common 32-bit hashes).",
    note="trusts the recogniser's reading of an accepted string", ref="3 C06"),
  "C08": dict(tech=ORACLE + " (canonicaliser) on Vector() after every accepted parse, plus idempotence",
-   text="For every accepted string, ParseVector(s).Vector() must equal the independent canonicaliser's output and be a fixed point of parse-then-serialise; non-canonical spellings are over-represented.",
+   text="For every accepted string, ParseVector(s).Vector() must equal the independent canonicaliser's output and be a fixed point of parse-then-serialise; non-canonical spellings are over-represented; constructed hash-collision pairs of equal-length vectors are parsed back to back.",
    note="trusts Canonical() in harness/spec/grammar.go", ref="3 C08"),
  "C13": dict(tech="runtime monitoring: every string and every Vector() output cross-offered to all four parsers; at-most-one-acceptor monitor",
    text="The whole hostile string stream incl. header variants x bodies and cross-version bodies goes to all four parsers; two acceptors, or a Vector() accepted by a foreign parser or rejected by its own, is a violation.",
